@@ -34,7 +34,8 @@ ASSUMPTIONS = [
     "dictionaries are closed under template references (AllOptions.keys() never fails while resolving the whole dictionary can)",
 ]
 FLOORS = {"triples_compared": (6000, 100000), "fail_together": (1500, 30000), "succeed_together": (2000, 40000), "warm_triples": (2000, 40000),
-          "partial_body_cases": (200, 4000), "validate_keys_body_checks": (6000, 100000)}
+          "partial_body_cases": (200, 4000), "validate_keys_body_checks": (6000, 100000),
+          "datasetclass_triples": (1000, 20000), "datasetclass_fail_together": (150, 3000)}
 SHARDS_QUICK = 4
 FEATURES = {"domains": False, "allopts": False}
 
@@ -199,8 +200,35 @@ def coalesce_reproducer(ctx):
     partial_bodies(ctx, program, {"A": 1}, R())
 
 
+def datasetclass_triples(ctx, i):
+    """Dataset classes (generated like C19's: inherited members, dotted keys, dispatching members): validate, keys and
+    instantiation (= evaluate) succeed or fail together, and instantiating under exactly the reported keys succeeds."""
+    from .c19 import gen_options, make_class
+
+    r = case_rng(ctx, ("dc", i))
+    cls, members, raw = make_class(r)
+    relevant = sorted({k for _, ks in members.values() for k in ks})
+    for _ in range(4):
+        o = gen_options(r, relevant)
+        for k in r.sample(relevant, min(len(relevant), r.choice([0, 1, 2]))):
+            o = U.del_path(o, k)
+        res = {"validate": observe(cls.validate, copy.deepcopy(o)), "keys": observe(cls.keys, copy.deepcopy(o)), "evaluate": observe(cls, copy.deepcopy(o))}
+        ctx.evaluations += 3
+        ctx.count("datasetclass_triples")
+        bits = {k: v[0] == "ok" for k, v in res.items()}
+        W = {"family": "datasetclass", "case": i, "shard": ctx.shard, "shards": ctx.shards, "members": {k: list(v) for k, v in members.items()}, "options": o}
+        if len(set(bits.values())) != 1:
+            ctx.violation("operations-disagree", f"dataset class: validate {short(res['validate'], 70)} / keys {short(res['keys'], 70)} / instantiation {short(res['evaluate'], 70)}", W)
+            return
+        if not bits["evaluate"]:
+            ctx.count("datasetclass_fail_together")
+        ctx.nontrivial(spec_hash(["dc", sorted(members.items()), o]))
+
+
 def run(ctx):
     rng = ctx.rng
+    for i in range(ctx.n(300, 6000)):
+        datasetclass_triples(ctx, i)
     if ctx.shard == 0:
         known_finding_reproducer(ctx)
         coalesce_reproducer(ctx)
@@ -238,7 +266,10 @@ def run(ctx):
 
 def replay(ctx, rep):
     w = rep["witness"]
-    if "program" in w:
+    if w.get("family") == "datasetclass":
+        ctx.shard, ctx.shards = w.get("shard", 0), w.get("shards", 1)
+        datasetclass_triples(ctx, w["case"])
+    elif "program" in w:
         triple(ctx, w["program"], w["options"], build(w["program"]), selector_datasets(w["program"]), False, "replay")
     else:
         known_finding_reproducer(ctx)
